@@ -40,11 +40,12 @@ Qed.
 Lemma existing_not_refused : forall d r, refused (existing d r) = false.
 Proof. intros d r. unfold existing. destruct (if N.eqb (r_mid r) 0 then false else _); reflexivity. Qed.
 
-Lemma fresh_not_refused : forall d c r, refused (fresh d c r) = false.
+Lemma fresh_not_refused : forall cfg d c r, refused (fresh cfg d c r) = false.
 Proof.
-  intros d c r. unfold fresh.
-  destruct (if N.eqb (r_mid r) 0 then false else _); [|reflexivity].
-  destruct (get_mapping d (r_mid r)); reflexivity.
+  intros cfg d c r. unfold fresh.
+  destruct (if N.eqb (r_mid r) 0 then false else _).
+  - destruct (get_mapping d (r_mid r)); reflexivity.
+  - destruct (cfg_routing cfg && cfg_crossnode cfg); reflexivity.
 Qed.
 
 (* every outcome other than a refusal (attachments AND bare success acknowledgements) needs entitlement to the
@@ -136,7 +137,7 @@ Proof.
       unfold cross in H. rewrite Hcfg in H. cbn [negb] in H. rewrite Hb in H.
       cbn [negb andb] in H. rewrite Bool.andb_false_r in H.
       destruct (N.eqb (ro_node ro) (cfg_self cfg)); discriminate.
-    + pose proof (fresh_not_refused d c r) as Hn. rewrite H in Hn. discriminate.
+    + pose proof (fresh_not_refused cfg d c r) as Hn. rewrite H in Hn. discriminate.
 Qed.
 
 (* ------------------------------------------------------------------------------------------------
@@ -144,21 +145,42 @@ Qed.
    ------------------------------------------------------------------------------------------------ *)
 Definition log_keys (s : sys) : list (connref * tid) := map fst (s_log s).
 
-(* one step: either the connection already held the tunnel, or this very event is an attaching open by it, logged *)
 Ltac fin_open Ho :=
   split; [reflexivity | split; [reflexivity | split; [rewrite Ho; reflexivity | reflexivity]]].
 
+Lemma find_parked_some :
+  forall cr l p, find (parked_of cr) l = Some p -> In p l /\ fst (fst p) = cr.
+Proof.
+  intros cr l p H. apply find_some in H. destruct H as [Hin Hp]. split; [exact Hin|].
+  unfold parked_of in Hp. apply N.eqb_eq in Hp. exact Hp.
+Qed.
+
+(* the mapping-agreement test of processCrossNodeForward in the repaired code *)
+Lemma cross_current_agrees :
+  forall cfg ro r, attaches (cross current cfg ro r) = true -> N.eqb (ro_mid ro) (r_mid r) = true.
+Proof.
+  intros cfg ro r H. unfold cross in H.
+  destruct (cfg_crossnode cfg); cbn [negb] in H; [|discriminate].
+  cbn [current v_validate_first andb] in H.
+  destruct (N.eqb (ro_mid ro) (r_mid r)); [reflexivity | cbn [negb] in H; discriminate].
+Qed.
+
+(* one step: either the connection already held the tunnel, or this very event is an accepted open by it (logged), or
+   the routing poll of its own parked request fired (logged) *)
 Lemma step_holds :
   forall v cfg s e cr t,
     holds (step v cfg s e) cr t ->
     holds s cr t \/
-    exists c r, e = EOpen cr c r /\ r_tid r = t /\
+    (exists c r, e = EOpen cr c r /\ r_tid r = t /\
                 attaches (open v cfg (s_db s) (s_tun s) (s_rt s) c r) = true /\
                 s_log (step v cfg s e) =
-                  (cr, t, entitledb (s_db s) c r (tunnel_mid (s_tun s) (s_rt s) r)) :: s_log s.
+                  (cr, t, entitledb (s_db s) c r (tunnel_mid (s_tun s) (s_rt s) r)) :: s_log s) \/
+    (e = EResolve cr /\ exists r ok ro, In (cr, r, ok) (s_park s) /\ r_tid r = t /\ s_rt s t = Some ro /\
+                attaches (cross v cfg ro r) = true /\
+                s_log (step v cfg s e) = (cr, t, ok && N.eqb (ro_mid ro) (r_mid r)) :: s_log s).
 Proof.
   intros v cfg s e cr t.
-  destruct e as [cr0 c r | m x | t0 x | t0 | cr0 t0]; cbn [step].
+  destruct e as [cr0 c r | m x | t0 x | t0 | cr0 t0 | cr0 | cr0]; cbn [step].
   - (* EOpen *)
     destruct (open v cfg (s_db s) (s_tun s) (s_rt s) c r) eqn:Ho; intro H.
     + left; exact H.
@@ -168,7 +190,7 @@ Proof.
       * unfold upd in Hb'. destruct (N.eqb t (r_tid r)) eqn:Ht.
         -- apply N.eqb_eq in Ht. injection Hb' as <-. cbn [b_src b_tgt] in Hor.
            destruct Hor as [Hs | Htg].
-           ++ injection Hs as <-. right. exists c, r. subst t. fin_open Ho.
+           ++ injection Hs as <-. right. left. exists c, r. subst t. fin_open Ho.
            ++ left. left. exists b. subst t. split; [exact Hb | right; exact Htg].
         -- left. left. exists b'. split; assumption.
       * left. right. exact Hin.
@@ -179,7 +201,7 @@ Proof.
         -- apply N.eqb_eq in Ht. injection Hb' as <-. cbn [b_src b_tgt] in Hor.
            destruct Hor as [Hs | Htg].
            ++ left. left. exists b. subst t. split; [exact Hb | left; exact Hs].
-           ++ injection Htg as <-. right. exists c, r. subst t. fin_open Ho.
+           ++ injection Htg as <-. right. left. exists c, r. subst t. fin_open Ho.
         -- left. left. exists b'. split; assumption.
       * left. right. exact Hin.
     + (* NewBridge *)
@@ -187,25 +209,27 @@ Proof.
       * unfold upd in Hb'. destruct (N.eqb t (r_tid r)) eqn:Ht.
         -- apply N.eqb_eq in Ht. injection Hb' as <-. cbn [b_src b_tgt] in Hor.
            destruct Hor as [Hs | Htg]; [|discriminate].
-           injection Hs as <-. right. exists c, r. subst t. fin_open Ho.
+           injection Hs as <-. right. left. exists c, r. subst t. fin_open Ho.
         -- left. left. exists b'. split; assumption.
       * left. right. exact Hin.
     + (* Forward *)
       destruct H as [[b' [Hb' Hor]] | Hin]; cbn [s_tun s_fwd] in *.
       * left. left. exists b'. split; assumption.
       * destruct Hin as [Heq | Hin].
-        -- injection Heq as <- <-. right. exists c, r. fin_open Ho.
+        -- injection Heq as <- <-. right. left. exists c, r. fin_open Ho.
         -- left. right. exact Hin.
     + (* WaitLocal *)
       destruct H as [[b' [Hb' Hor]] | Hin]; cbn [s_tun s_fwd] in *.
       * left. left. exists b'. split; assumption.
       * destruct Hin as [Heq | Hin].
-        -- injection Heq as <- <-. right. exists c, r. fin_open Ho.
+        -- injection Heq as <- <-. right. left. exists c, r. fin_open Ho.
         -- left. right. exact Hin.
     + left; exact H.
+    + (* Parked *) left. exact H.
   - (* ESetMapping *) intro H. left. exact H.
   - (* ESetRoute *) intro H. left. exact H.
   - (* ECloseBridge *)
+    destruct (s_tun s t0) as [b0|] eqn:Hb0; [|intro H; left; exact H].
     intro H. left.
     destruct H as [[b' [Hb' Hor]] | Hin]; cbn [s_tun s_fwd] in *.
     + unfold upd in Hb'. destruct (N.eqb t t0); [discriminate|].
@@ -216,57 +240,134 @@ Proof.
     destruct H as [[b' [Hb' Hor]] | Hin]; cbn [s_tun s_fwd] in *.
     + left. exists b'. split; assumption.
     + right. apply filter_In in Hin. destruct Hin as [Hin _]. exact Hin.
+  - (* EResolve *)
+    destruct (find (parked_of cr0) (s_park s)) as [[[crp r] ok]|] eqn:Hf; [|intro H; left; exact H].
+    apply find_parked_some in Hf. destruct Hf as [Hinp Hcr]. cbn [fst] in Hcr. subst crp.
+    destruct (s_rt s (r_tid r)) as [ro|] eqn:Hrt; [|intro H; left; exact H].
+    destruct (cross v cfg ro r) eqn:Hc; intro H;
+      try (left; destruct H as [[b' [Hb' Hor]] | Hin]; cbn [s_tun s_fwd] in *;
+           [left; exists b'; split; assumption | right; exact Hin]).
+    + (* Forward *)
+      destruct H as [[b' [Hb' Hor]] | Hin]; cbn [s_tun s_fwd] in *.
+      * left. left. exists b'. split; assumption.
+      * destruct Hin as [Heq | Hin].
+        -- injection Heq as <- <-. right. right. split; [reflexivity|].
+           exists r, ok, ro. rewrite Hc. repeat split; try reflexivity; assumption.
+        -- left. right. exact Hin.
+    + (* WaitLocal *)
+      destruct (s_tun s (r_tid r)) as [b|] eqn:Hb.
+      * destruct H as [[b' [Hb' Hor]] | Hin]; cbn [s_tun s_fwd] in *.
+        -- unfold upd in Hb'. destruct (N.eqb t (r_tid r)) eqn:Ht.
+           ++ apply N.eqb_eq in Ht. injection Hb' as <-. cbn [b_src b_tgt] in Hor.
+              destruct Hor as [Hs | Htg].
+              ** left. left. exists b. subst t. split; [exact Hb | left; exact Hs].
+              ** injection Htg as <-. right. right. split; [reflexivity|].
+                 exists r, ok, ro. subst t. rewrite Hc. repeat split; try reflexivity; assumption.
+           ++ left. left. exists b'. split; assumption.
+        -- left. right. exact Hin.
+      * left. destruct H as [[b' [Hb' Hor]] | Hin]; cbn [s_tun s_fwd] in *;
+          [left; exists b'; split; assumption | right; exact Hin].
+  - (* ETimeout *) intro H. left. exact H.
 Qed.
 
-(* the ghost log only grows, and only by the entry of the current open *)
+(* the ghost log only grows, and only by the entry of the current accepted open / resolved parked request *)
 Lemma step_log :
   forall v cfg s e,
     s_log (step v cfg s e) = s_log s \/
-    exists cr c r, e = EOpen cr c r /\
+    (exists cr c r, e = EOpen cr c r /\
       attaches (open v cfg (s_db s) (s_tun s) (s_rt s) c r) = true /\
       s_log (step v cfg s e) =
-        (cr, r_tid r, entitledb (s_db s) c r (tunnel_mid (s_tun s) (s_rt s) r)) :: s_log s.
+        (cr, r_tid r, entitledb (s_db s) c r (tunnel_mid (s_tun s) (s_rt s) r)) :: s_log s) \/
+    (exists cr r ok ro, e = EResolve cr /\ In (cr, r, ok) (s_park s) /\ s_rt s (r_tid r) = Some ro /\
+      attaches (cross v cfg ro r) = true /\
+      s_log (step v cfg s e) = (cr, r_tid r, ok && N.eqb (ro_mid ro) (r_mid r)) :: s_log s).
 Proof.
   intros v cfg s e.
-  destruct e as [cr0 c r | m x | t0 x | t0 | cr0 t0]; cbn [step]; try (left; reflexivity).
-  destruct (open v cfg (s_db s) (s_tun s) (s_rt s) c r) eqn:Ho; try (left; reflexivity).
-  - destruct (s_tun s (r_tid r)); [|left; reflexivity].
-    right. exists cr0, c, r. rewrite Ho. repeat split; reflexivity.
-  - destruct (s_tun s (r_tid r)); [|left; reflexivity].
-    right. exists cr0, c, r. rewrite Ho. repeat split; reflexivity.
-  - right. exists cr0, c, r. rewrite Ho. repeat split; reflexivity.
-  - right. exists cr0, c, r. rewrite Ho. repeat split; reflexivity.
-  - right. exists cr0, c, r. rewrite Ho. repeat split; reflexivity.
+  destruct e as [cr0 c r | m x | t0 x | t0 | cr0 t0 | cr0 | cr0]; cbn [step]; try (left; reflexivity).
+  2: { destruct (s_tun s t0); left; reflexivity. }
+  - destruct (open v cfg (s_db s) (s_tun s) (s_rt s) c r) eqn:Ho; try (left; reflexivity).
+    + destruct (s_tun s (r_tid r)); [|left; reflexivity].
+      right. left. exists cr0, c, r. rewrite Ho. repeat split; reflexivity.
+    + destruct (s_tun s (r_tid r)); [|left; reflexivity].
+      right. left. exists cr0, c, r. rewrite Ho. repeat split; reflexivity.
+    + right. left. exists cr0, c, r. rewrite Ho. repeat split; reflexivity.
+    + right. left. exists cr0, c, r. rewrite Ho. repeat split; reflexivity.
+    + right. left. exists cr0, c, r. rewrite Ho. repeat split; reflexivity.
+  - destruct (find (parked_of cr0) (s_park s)) as [[[crp r] ok]|] eqn:Hf; [|left; reflexivity].
+    apply find_parked_some in Hf. destruct Hf as [Hinp Hcr]. cbn [fst] in Hcr. subst crp.
+    destruct (s_rt s (r_tid r)) as [ro|] eqn:Hrt; [|left; reflexivity].
+    destruct (cross v cfg ro r) eqn:Hc; try (left; reflexivity).
+    + right. right. exists cr0, r, ok, ro. rewrite Hc. repeat split; try reflexivity; assumption.
+    + destruct (s_tun s (r_tid r)); [|left; reflexivity].
+      right. right. exists cr0, r, ok, ro. rewrite Hc. repeat split; try reflexivity; assumption.
+Qed.
+
+(* who is parked after a step: already parked, or this event is an accepted open of that connection *)
+Lemma step_park :
+  forall v cfg s e p,
+    In p (s_park (step v cfg s e)) ->
+    In p (s_park s) \/
+    exists c r, e = EOpen (fst (fst p)) c r /\
+      attaches (open v cfg (s_db s) (s_tun s) (s_rt s) c r) = true /\
+      snd p = entitledb (s_db s) c r (tunnel_mid (s_tun s) (s_rt s) r).
+Proof.
+  intros v cfg s e p.
+  destruct e as [cr0 c r | m x | t0 x | t0 | cr0 t0 | cr0 | cr0]; cbn [step]; try (intro H; left; exact H).
+  2: { destruct (s_tun s t0); intro H; left; exact H. }
+  - destruct (open v cfg (s_db s) (s_tun s) (s_rt s) c r) eqn:Ho; try (intro H; left; exact H).
+    + destruct (s_tun s (r_tid r)); intro H; left; exact H.
+    + destruct (s_tun s (r_tid r)); intro H; left; exact H.
+    + cbn [s_park]. intro H. apply in_app_or in H. destruct H as [H | [H | []]]; [left; exact H|].
+      subst p. right. exists c, r. cbn [fst snd]. rewrite Ho. repeat split; reflexivity.
+  - destruct (find (parked_of cr0) (s_park s)) as [[[crp r] ok]|]; [|intro H; left; exact H].
+    destruct (s_rt s (r_tid r)) as [ro|]; [|intro H; left; exact H].
+    assert (Hsub : In p (unpark cr0 (s_park s)) -> In p (s_park s)).
+    { intro H. apply filter_In in H. destruct H as [H _]. exact H. }
+    destruct (cross v cfg ro r); try (cbn [s_park]; intro H; left; apply Hsub; exact H).
+    destruct (s_tun s (r_tid r)); cbn [s_park]; intro H; left; apply Hsub; exact H.
+  - cbn [s_park]. intro H. left. apply filter_In in H. destruct H as [H _]. exact H.
 Qed.
 
 Definition inv (s : sys) : Prop :=
   (forall cr t, holds s cr t -> In (cr, t) (log_keys s)) /\
-  (forall e, In e (s_log s) -> snd e = true).
+  (forall e, In e (s_log s) -> snd e = true) /\
+  (forall p, In p (s_park s) -> snd p = true).
 
 Lemma inv_init : forall d rt, inv (init d rt).
 Proof.
-  intros d rt. split.
+  intros d rt. split; [|split].
   - intros cr t [[b [Hb _]] | Hin]; cbn in *; [discriminate | contradiction].
   - intros e H. cbn in H. contradiction.
+  - intros p H. cbn in H. contradiction.
 Qed.
 
 Lemma inv_step : forall cfg s e, inv s -> inv (step current cfg s e).
 Proof.
-  intros cfg s e [Hheld Hlog]. split.
+  intros cfg s e [Hheld [Hlog Hpark]]. split; [|split].
   - intros cr t H.
-    destruct (step_holds current cfg s e cr t H) as [Hold | [c [r [He [Ht [Hatt Hl]]]]]].
+    destruct (step_holds current cfg s e cr t H) as [Hold | [[c [r [He [Ht [Hatt Hl]]]]] | [He [r [ok [ro [Hin [Ht [Hrt [Hatt Hl]]]]]]]]]].
     + specialize (Hheld cr t Hold).
       unfold log_keys in *.
-      destruct (step_log current cfg s e) as [Hsame | [cr' [c' [r' [_ [_ Hl]]]]]].
+      destruct (step_log current cfg s e) as [Hsame | [[cr' [c' [r' [_ [_ Hl]]]]] | [cr' [r' [ok' [ro' [_ [_ [_ [_ Hl]]]]]]]]]].
       * rewrite Hsame. exact Hheld.
       * rewrite Hl. cbn [map]. right. exact Hheld.
+      * rewrite Hl. cbn [map]. right. exact Hheld.
+    + unfold log_keys. rewrite Hl. cbn [map fst]. left. reflexivity.
     + unfold log_keys. rewrite Hl. cbn [map fst]. left. reflexivity.
   - intros en Hin.
-    destruct (step_log current cfg s e) as [Hsame | [cr' [c' [r' [_ [Hatt Hl]]]]]].
+    destruct (step_log current cfg s e) as [Hsame | [[cr' [c' [r' [_ [Hatt Hl]]]]] | [cr' [r' [ok' [ro' [_ [Hinp [_ [Hatt Hl]]]]]]]]]].
     + rewrite Hsame in Hin. apply Hlog. exact Hin.
     + rewrite Hl in Hin. destruct Hin as [Heq | Hin].
       * subst en. cbn [snd]. apply (attach_implies_entitled cfg). exact Hatt.
       * apply Hlog. exact Hin.
+    + rewrite Hl in Hin. destruct Hin as [Heq | Hin].
+      * subst en. cbn [snd]. specialize (Hpark _ Hinp). cbn [snd] in Hpark. rewrite Hpark.
+        rewrite (cross_current_agrees cfg ro' r' Hatt). reflexivity.
+      * apply Hlog. exact Hin.
+  - intros p Hin.
+    destruct (step_park current cfg s e p Hin) as [Hold | [c [r [_ [Hatt Hp]]]]].
+    + apply Hpark. exact Hold.
+    + rewrite Hp. apply (attach_implies_entitled cfg). exact Hatt.
 Qed.
 
 Lemma inv_run : forall cfg es s, inv s -> inv (run current cfg s es).
@@ -277,39 +378,47 @@ Proof.
 Qed.
 
 (* over ALL histories from a fresh session manager: whoever receives tunnel traffic got there through a TunnelOpen
-   that was entitled (to the tunnel's mapping, at that moment) *)
+   that was entitled (to the tunnel's mapping, at the moment it was validated) *)
 Lemma held_only_via_entitled_open :
   forall cfg d rt es cr t,
     holds (run current cfg (init d rt) es) cr t ->
     In (cr, t, true) (s_log (run current cfg (init d rt) es)).
 Proof.
   intros cfg d rt es cr t H.
-  destruct (inv_run cfg es (init d rt) (inv_init d rt)) as [Hheld Hlog].
+  destruct (inv_run cfg es (init d rt) (inv_init d rt)) as [Hheld [Hlog _]].
   specialize (Hheld cr t H). unfold log_keys in Hheld.
   apply in_map_iff in Hheld. destruct Hheld as [[k ok] [Hk Hin]]. cbn [fst] in Hk. subst k.
   specialize (Hlog _ Hin). cbn [snd] in Hlog. subst ok. exact Hin.
 Qed.
 
-(* a connection all of whose opens were refused never holds any tunnel — for EVERY variant of the dispatcher:
-   the attachment points are reachable only through open *)
+(* a connection all of whose opens were refused never holds any tunnel and is never parked — for EVERY variant of the
+   dispatcher: the attachment points are reachable only through open *)
 Lemma refused_never_holds :
   forall v cfg es s cr,
-    (forall t, ~ holds s cr t) ->
+    (forall t, ~ holds s cr t) -> ~ parked s cr ->
     all_refused v cfg s es cr ->
     forall t, ~ holds (run v cfg s es) cr t.
 Proof.
-  intros v cfg es. induction es as [|e es IH]; intros s cr Hno Hall t; cbn [run fold_left].
+  intros v cfg es. induction es as [|e es IH]; intros s cr Hno Hnp Hall t; cbn [run fold_left].
   - apply Hno.
   - cbn [all_refused] in Hall. destruct Hall as [Hhead Htail].
-    apply (IH (step v cfg s e) cr); [|exact Htail].
-    intros t' Hh.
-    destruct (step_holds v cfg s e cr t' Hh) as [Hold | [c [r [He [Ht [Hatt _]]]]]].
-    + exact (Hno t' Hold).
-    + subst e. specialize (Hhead eq_refl). rewrite Hhead in Hatt. discriminate.
+    apply (IH (step v cfg s e) cr); [| |exact Htail].
+    + intros t' Hh.
+      destruct (step_holds v cfg s e cr t' Hh) as [Hold | [[c [r [He [Ht [Hatt _]]]]] | [He [r [ok [ro [Hin _]]]]]]].
+      * exact (Hno t' Hold).
+      * subst e. specialize (Hhead eq_refl). rewrite Hhead in Hatt. discriminate.
+      * apply Hnp. exists r, ok. exact Hin.
+    + intros [r [ok Hin]].
+      destruct (step_park v cfg s e _ Hin) as [Hold | [c [r' [He [Hatt _]]]]].
+      * apply Hnp. exists r, ok. exact Hold.
+      * cbn [fst] in He. subst e. specialize (Hhead eq_refl). rewrite Hhead in Hatt. discriminate.
 Qed.
 
 Lemma init_holds_nothing : forall d rt cr t, ~ holds (init d rt) cr t.
 Proof. intros d rt cr t [[b [Hb _]] | Hin]; cbn in *; [discriminate | contradiction]. Qed.
+
+Lemma init_parks_nothing : forall d rt cr, ~ parked (init d rt) cr.
+Proof. intros d rt cr [r [ok H]]. cbn in H. contradiction. Qed.
 
 (* ------------------------------------------------------------------------------------------------
    4. the finite table (the cells the harness drives through the real code)
@@ -339,7 +448,7 @@ Proof.
   intros c H. pose proof (every_cell_ok c) as Hok. unfold cell_ok in Hok.
   rewrite H in Hok. rewrite Bool.orb_false_r in Hok. cbn [orb] in Hok.
   apply andb_prop in Hok. destruct Hok as [_ Hr].
-  destruct (cell_open current c) as [[|]| | | | | |]; try discriminate. reflexivity.
+  destruct (cell_open current c) as [[|]| | | | | | |]; try discriminate. reflexivity.
 Qed.
 
 (* ------------------------------------------------------------------------------------------------
@@ -383,7 +492,7 @@ Qed.
    ------------------------------------------------------------------------------------------------ *)
 Definition ex_db : db := fun m => if N.eqb m 1 then Some {| m_listen := 11; m_target := 12; m_secret := 101;
                                                           m_revoked := false; m_expired := false; m_active := true |} else None.
-Definition ex_cfg : config := {| cfg_self := 1; cfg_crossnode := true |}.
+Definition ex_cfg : config := {| cfg_self := 1; cfg_crossnode := true; cfg_routing := true |}.
 Definition ex_src : conn_id := {| c_registered := true; c_client := 11 |}.
 Definition ex_tgt : conn_id := {| c_registered := true; c_client := 12 |}.
 Definition ex_req : request := {| r_mid := 1; r_tid := 7; r_secret := 101; r_resume := false |}.
@@ -414,4 +523,44 @@ Qed.
 Lemma legit_cross_node_forwards :
   open current ex_cfg ex_db (fun _ => None) (fun t => if N.eqb t 7 then Some {| ro_node := 2; ro_mid := 1 |} else None) ex_tgt ex_req = Forward.
 Proof. vm_compute. reflexivity. Qed.
+
+(* ------------------------------------------------------------------------------------------------
+   7. requests that arrive BEFORE their tunnel exists (parked in the routing poll)
+   ------------------------------------------------------------------------------------------------ *)
+Definition ex_db2 : db := fun m =>
+  if N.eqb m 1 then Some {| m_listen := 11; m_target := 12; m_secret := 101; m_revoked := false; m_expired := false; m_active := true |}
+  else if N.eqb m 2 then Some {| m_listen := 13; m_target := 14; m_secret := 102; m_revoked := false; m_expired := false; m_active := true |}
+  else None.
+Definition ex_req9 (m k : N) : request := {| r_mid := m; r_tid := 9; r_secret := k; r_resume := false |}.
+Definition ex_x : conn_id := {| c_registered := true; c_client := 14 |}.   (* target client of mapping 2 *)
+
+(* the entitled target arrives early, the listening client then creates tunnel 9, the poll fires: attached *)
+Definition ex_park_ok : list event := [ EOpen 2001 ex_tgt (ex_req9 1 101); EOpen 2000 ex_src (ex_req9 1 101); EResolve 2001 ].
+(* the target client of ANOTHER mapping (right secret of its own mapping) arrives early on the same tunnel id *)
+Definition ex_park_other : list event := [ EOpen 2001 ex_x (ex_req9 2 102); EOpen 2000 ex_src (ex_req9 1 101); EResolve 2001 ].
+
+Lemma parked_entitled_attaches :
+  let s := run current ex_cfg (init ex_db2 (fun _ => None)) ex_park_ok in
+  s_tun s 9 = Some {| b_mid := 1; b_src := Some 2000; b_tgt := Some 2001 |} /\
+  s_log s = [(2001, 9, true); (2000, 9, true)] /\ s_park s = [].
+Proof. cbv zeta. repeat split; vm_compute; reflexivity. Qed.
+
+Lemma parked_other_mapping_refused :
+  let s := run current ex_cfg (init ex_db2 (fun _ => None)) ex_park_other in
+  s_park (run current ex_cfg (init ex_db2 (fun _ => None)) (firstn 2 ex_park_other)) <> [] /\
+  s_tun s 9 = Some {| b_mid := 1; b_src := Some 2000; b_tgt := None |} /\
+  s_log s = [(2000, 9, true)] /\ s_park s = [].
+Proof. cbv zeta. split; [vm_compute; discriminate|]. repeat split; vm_compute; reflexivity. Qed.
+
+(* without the agreement test at resolution time (the tree as found; equally a tree where that test is skipped for
+   bridges on this node) the same history hands mapping 1's tunnel to mapping 2's client *)
+Lemma pinned_parked_refuted :
+  exists d es cr t,
+    holds (run pinned ex_cfg (init d (fun _ => None)) es) cr t /\
+    In (cr, t, false) (s_log (run pinned ex_cfg (init d (fun _ => None)) es)).
+Proof.
+  exists ex_db2, ex_park_other, 2001, 9. split.
+  - left. exists {| b_mid := 1; b_src := Some 2000; b_tgt := Some 2001 |}. split; [vm_compute; reflexivity | right; reflexivity].
+  - vm_compute. left. reflexivity.
+Qed.
 Close Scope N_scope.
